@@ -1,7 +1,172 @@
-import PprofVerif.Base.Tok
-/- Driver operations for C04. -/
+import PprofVerif.Model.Graph
+/- Driver operations for C04/C05 (graph figures).  Presentation only: reads a profile and options,
+   runs `PV.Graph` (model) or `PV.GSpec` (specification) and prints tables. -/
 namespace Driver.C04
-open PV
+open PV PV.GSpec PV.Graph
 
-def ops : List (String × (List String → String)) := []
+def rdNodeInfo : Rd NodeInfo := do
+  pure { name := ← Rd.str, origName := ← Rd.str, address := ← Rd.nat, file := ← Rd.str,
+         startLine := ← Rd.int, lineno := ← Rd.int, columnno := ← Rd.int, objfile := ← Rd.str }
+
+def wrNodeInfo (n : NodeInfo) : Wr :=
+  Wr.str n.name ++ Wr.str n.origName ++ Wr.nat n.address ++ Wr.str n.file ++ Wr.int n.startLine ++
+  Wr.int n.lineno ++ Wr.int n.columnno ++ Wr.str n.objfile
+
+def rdAggFlags : Rd AggFlags := do
+  pure { inlineFrame := ← Rd.bool, function := ← Rd.bool, filename := ← Rd.bool,
+         linenumber := ← Rd.bool, columnnumber := ← Rd.bool, address := ← Rd.bool }
+
+def wrAggFlags (f : AggFlags) : Wr :=
+  Wr.bool f.inlineFrame ++ Wr.bool f.function ++ Wr.bool f.filename ++ Wr.bool f.linenumber ++
+  Wr.bool f.columnnumber ++ Wr.bool f.address
+
+/-- common request: options, clean table, profile. -/
+structure Req where
+  callTree : Bool
+  o : GOpts
+  agg : Option AggFlags
+  vi : Nat
+  mean : Bool
+  kept : Option (List NodeInfo)
+  clean : List (Str × Str)
+  p : Profile
+
+def rdReq : Rd Req := do
+  let callTree ← Rd.bool
+  let objNames ← Rd.bool
+  let origFnNames ← Rd.bool
+  let agg ← Rd.opt rdAggFlags
+  let vi ← Rd.nat
+  let mean ← Rd.bool
+  let kept ← Rd.opt (Rd.list rdNodeInfo)
+  let clean ← Rd.list (do let a ← Rd.str; let b ← Rd.str; pure (a, b))
+  let p ← Rd.profile
+  pure { callTree, o := { objNames, origFnNames }, agg, vi, mean, kept, clean, p }
+
+def cleanFn (tbl : List (Str × Str)) (s : Str) : Str :=
+  match tbl.lookup s with
+  | some c => c
+  | none => s
+
+def Req.samples (r : Req) : Option (List (GSample NodeInfo)) :=
+  let p := match r.agg with
+    | none => r.p
+    | some f => aggregate r.p f
+  samplesOf (cleanFn r.clean) p r.o r.vi r.mean
+
+/-! interning of NodeInfo for output -/
+def internIdx (tbl : List NodeInfo) (n : NodeInfo) : List NodeInfo × Nat :=
+  match tbl.findIdx? (· == n) with
+  | some i => (tbl, i)
+  | none => (tbl ++ [n], tbl.length)
+
+def internKey (tbl : List NodeInfo) (k : List NodeInfo) : List NodeInfo × List Nat :=
+  k.foldl (fun (t, acc) n => let (t', i) := internIdx t n; (t', acc ++ [i])) (tbl, [])
+
+structure OutTables where
+  nodes : List (List NodeInfo × WD × WD)                    -- key, flat, cum
+  edges : List (List NodeInfo × List NodeInfo × WD × Bool)  -- src, dst, weight, residual
+  total : WD
+
+def wrWD (v : WD) : Wr := Wr.int v.w ++ Wr.int v.d ++ Wr.int v.value
+
+def renderTables (t : OutTables) : String :=
+  -- intern all keys
+  let (tbl, nodes) := t.nodes.foldl (fun (tb, acc) (k, f, c) =>
+    let (tb', ik) := internKey tb k; (tb', acc ++ [(ik, f, c)])) ([], [])
+  let (tbl, edges) := t.edges.foldl (fun (tb, acc) (a, b, w, r) =>
+    let (tb1, ia) := internKey tb a
+    let (tb2, ib) := internKey tb1 b
+    (tb2, acc ++ [(ia, ib, w, r)])) (tbl, [])
+  "ok " ++ Wr.render (
+    Wr.list wrNodeInfo tbl ++
+    Wr.list (fun (k, f, c) => Wr.list Wr.nat k ++ wrWD f ++ wrWD c) nodes ++
+    Wr.list (fun (a, b, w, r) => Wr.list Wr.nat a ++ Wr.list Wr.nat b ++ wrWD w ++ Wr.bool r) edges ++
+    wrWD t.total)
+
+/-- all distinct keys / adjacent pairs of a sample list, first-appearance order. -/
+def allKeys {κ : Type} [DecidableEq κ] (ss : List (GSample κ)) : List κ :=
+  (ss.flatMap (·.frames)).eraseDups
+
+def allPairs {κ : Type} [DecidableEq κ] (ss : List (GSample κ)) : List (κ × κ) :=
+  (ss.flatMap (fun s => s.frames.zip s.frames.tail)).eraseDups
+
+/-- tables according to the SPECIFICATION, for keys of type κ; `K` = kept predicate. -/
+def specTables {κ : Type} [DecidableEq κ] (toKey : κ → List NodeInfo) (K : κ → Bool)
+    (ss : List (GSample κ)) (totalOf : WD) : OutTables :=
+  let keys := (allKeys ss).filter K
+  let shown := keys.filter (fun n => (cumSpecK K ss n).w != 0 || (flatSpecK K ss n).w != 0)
+  let pairs := (allPairs (ss.map (restrict K))).filter (fun (a, b) => edgeExistsK K ss a b)
+  { nodes := shown.map (fun n => (toKey n, flatSpecK K ss n, cumSpecK K ss n)),
+    edges := pairs.map (fun (a, b) => (toKey a, toKey b, edgeSpecK K ss a b, edgeResidualSpecK K ss a b)),
+    total := totalOf }
+
+/-- tables according to the MODEL of graph.go. -/
+def modelTables {κ : Type} [DecidableEq κ] (toKey : κ → List NodeInfo) (g : GState κ) (total : WD) : OutTables :=
+  { nodes := g.shownNodes.map (fun (n, a) => (toKey n, a.flat, a.cum)),
+    edges := g.edges.map (fun ((a, b), e) => (toKey a, toKey b, e.weight, e.residual)),
+    total := total }
+
+def keptFn (k : Option (List NodeInfo)) : NodeInfo → Bool :=
+  match k with
+  | none => fun _ => true
+  | some l => fun n => l.contains n
+
+def runSpec (r : Req) : String :=
+  match r.samples with
+  | none => "invalid"
+  | some ss =>
+    if r.callTree then
+      renderTables (specTables (κ := List NodeInfo) id (fun _ => true) (ss.map treeSample) (totalSpec ss))
+    else
+      renderTables (specTables (κ := NodeInfo) (fun n => [n]) (keptFn r.kept) ss (totalSpec ss))
+
+def runModel (r : Req) : String :=
+  match r.samples with
+  | none => "invalid"
+  | some ss =>
+    if r.callTree then
+      renderTables (modelTables (κ := List NodeInfo) id (newTree ss) (computeTotalWD ss))
+    else
+      renderTables (modelTables (κ := NodeInfo) (fun n => [n]) (newGraph (keptFn r.kept) ss) (computeTotalWD ss))
+
+/-- frames of every sample (root → leaf) with value and divisor. -/
+def runFrames (r : Req) : String :=
+  match r.samples with
+  | none => "invalid"
+  | some ss =>
+    let (tbl, rows) := ss.foldl (fun (tb, acc) s =>
+      let (tb', ik) := internKey tb s.frames; (tb', acc ++ [(ik, s.w, s.d, s.base)])) ([], [])
+    "ok " ++ Wr.render (Wr.list wrNodeInfo tbl ++
+      Wr.list (fun (k, w, d, b) => Wr.list Wr.nat k ++ Wr.int w ++ Wr.int d ++ Wr.bool b) rows)
+
+def granOfNat : Nat → Option Granularity
+  | 0 => some .functions | 1 => some .filefunctions | 2 => some .files | 3 => some .lines
+  | 4 => some .addresses | _ => none
+
+def ops : List (String × (List String → String)) := [
+  ("graph.spec", fun ts => match Rd.run rdReq ts with
+    | none => "bad-op"
+    | some r => runSpec r),
+  ("graph.model", fun ts => match Rd.run rdReq ts with
+    | none => "bad-op"
+    | some r => runModel r),
+  ("graph.frames", fun ts => match Rd.run rdReq ts with
+    | none => "bad-op"
+    | some r => runFrames r),
+  ("graph.aggflags", fun ts =>
+    match Rd.run (do let g ← Rd.nat; let ni ← Rd.bool; let sc ← Rd.bool; pure (g, ni, sc)) ts with
+    | none => "bad-op"
+    | some (g, ni, sc) => match granOfNat g with
+      | none => "bad-op"
+      | some gr => "ok " ++ Wr.render (Wr.opt wrAggFlags (aggFlags gr ni sc))),
+  ("graph.sampleindex", fun ts =>
+    match Rd.run (do let s ← Rd.str; let p ← Rd.profile; pure (s, p)) ts with
+    | none => "bad-op"
+    | some (s, p) =>
+      if p.sampleType.isEmpty then "err" else
+      match sampleIndexByName p s with
+      | some i => "ok " ++ toString i
+      | none => "err")
+]
 end Driver.C04
